@@ -127,6 +127,19 @@ claim("C16", "Coq proof (number theory of the orbit in Z/|S|, mixed-radix biject
       "orthogonal's int(x / dim) float division is modelled as integer division (exact below 2^53).",
       "DESIGN.md section 5, C16")
 
+claim("C18", "Coq proof (loop = steps; keyword-call semantics of forwarding) over data REGENERATED from the source by an ast translator + differential correspondence",
+      "Theorems (Coq, closed): C18_search_eq_steps - init_search + search_step(0..N-1) + finish_search yields the very same Search "
+      "object as search(n_iter=N), for every optimizer/objective/history; C18_forwarding_sound - a well-forwarded facade hands "
+      "the backend exactly the environment a direct backend call gets, for every set of keyword arguments (missing required ones "
+      "fail alike); C18_all_facades_well_forwarded - vm_compute over generated/FacadeData.v, which harness/translate_facades.py "
+      "rewrites from optimizer_search/*.py and the backend signatures on EVERY run (fail-closed ast translation), so a dropped, "
+      "renamed or re-defaulted parameter breaks this proof obligation; the check then names the parameter and runs the facade "
+      "against `class T(backend, Search)` to exhibit the difference. " + DRV + "D-unit pairs search() with the step API.",
+      TRUST + " The translator (harness/translate_facades.py); keyword calls only (positional use of search_space is not modelled); "
+      "a trailing **kwargs of a backend is ignored (it receives nothing on either path); default expressions are compared by "
+      "canonical text.",
+      "DESIGN.md section 5, C18")
+
 
 def main():
     props = [json.loads(l) for l in open(os.path.join(VERIF, "properties.jsonl"))]
